@@ -458,8 +458,8 @@ int main(int argc, char ** argv)
       return ex.ReplayFile(d);
    }
    // depth per explored space {quick, thorough}; share of the time budget
-   static const int depths[NUM_PROFILES][2] = { {3, 4}, {5, 6}, {4, 5} };
-   static const double share[NUM_PROFILES] = { 0.40, 0.30, 0.30 };
+   static const int depths[NUM_PROFILES][2] = { {3, 4}, {4, 5}, {5, 5} };
+   static const double share[NUM_PROFILES] = { 0.60, 0.20, 0.20 };
    double used = 0.0;
    for (int prof = 0; prof < NUM_PROFILES; prof++) {
       used += share[prof];
